@@ -332,3 +332,84 @@ func (k *ServerKit) RunClient(ip string, segs []Seg, obs time.Duration, f simnet
 	<-wdone
 	return ex
 }
+
+// SeqClient is a request-by-request scripted client on one connection.
+type SeqClient struct {
+	C  *simnet.Conn
+	br *bufio.Reader
+}
+
+func (k *ServerKit) NewSeqClient(ip string, f simnet.Faults) (*SeqClient, error) {
+	c, err := k.Dial(ip)
+	if err != nil {
+		return nil, err
+	}
+	c.F = f
+	return &SeqClient{C: c, br: bufio.NewReaderSize(c, 1<<16)}, nil
+}
+
+// Send writes data in the given cut sizes.
+func (s *SeqClient) Send(data []byte, cuts []int) error {
+	if len(cuts) == 0 {
+		cuts = []int{len(data)}
+	}
+	for _, n := range cuts {
+		if n > len(data) {
+			n = len(data)
+		}
+		if _, err := s.C.Write(data[:n]); err != nil {
+			return err
+		}
+		data = data[n:]
+	}
+	if len(data) > 0 {
+		_, err := s.C.Write(data)
+		return err
+	}
+	return nil
+}
+
+// ReadResp reads one final response (interim 1xx responses are skipped and
+// returned in interim).
+func (s *SeqClient) ReadResp(method string, obs time.Duration) (r *Resp, interim []*Resp, err error) {
+	for {
+		s.C.SetReadDeadline(time.Now().Add(obs))
+		head, err := peekHead(s.br)
+		if err != nil {
+			return nil, interim, err
+		}
+		_ = head
+		resp, err := http.ReadResponse(s.br, &http.Request{Method: method})
+		if err != nil {
+			return nil, interim, err
+		}
+		r := &Resp{Status: resp.StatusCode, Proto: resp.Proto, Header: resp.Header, Inv: -1}
+		// net/http removes "Connection: close" from the header map and reports it as resp.Close
+		r.Close = resp.Close || hasToken(resp.Header.Values("Connection"), "close")
+		if v := resp.Header.Get("X-Inv"); v != "" {
+			r.Inv, _ = strconv.Atoi(v)
+		}
+		if r.Status >= 100 && r.Status < 200 && r.Status != 101 {
+			interim = append(interim, r)
+			continue
+		}
+		r.Body, r.BodyErr = io.ReadAll(resp.Body)
+		resp.Body.Close()
+		return r, interim, r.BodyErr
+	}
+}
+
+// ProbeClosed waits up to obs for the server to close the connection. It
+// returns closed=true on EOF/reset, false when the deadline passes with the
+// connection still open; extra holds unexpected bytes received meanwhile.
+func (s *SeqClient) ProbeClosed(obs time.Duration) (closed bool, extra []byte) {
+	s.C.SetReadDeadline(time.Now().Add(obs))
+	buf := make([]byte, 4096)
+	for {
+		n, err := s.br.Read(buf)
+		extra = append(extra, buf[:n]...)
+		if err != nil {
+			return !isTimeout(err), extra
+		}
+	}
+}
